@@ -289,6 +289,10 @@ fn fault_ops(fault: &str, p: &Project, a: &Analysis, i: usize, rng: &mut Rng) ->
                 TamperKind::Truncate,
                 TamperKind::Remove,
                 TamperKind::LossyTwin,
+                // (a third of the tampers: the one kind a comparison of decoded text cannot see)
+                TamperKind::LossyTwin,
+                TamperKind::LossyTwin,
+                TamperKind::CrlfFirst,
             ];
             vec![Op::Tamper {
                 path: s.out.clone(),
